@@ -200,7 +200,7 @@ Proof.
   unfold copy_wrects. rewrite <- (mem_iter_dir _ _ UC x y HUC), EUC.
   split.
   - rewrite orb_true_r. reflexivity.
-  - destruct (cShape c && cCurChanged c && cReady c); [destruct (sCursor st) as [[[[? ?] ?] ?]|]|]; reflexivity.
+  - destruct (cShape c && cCurChanged c && cReady c); [destruct (sCursor st) as [[[[? ?] cw] ch]|]; [destruct ((cw =? 0) || (ch =? 0))|]|]; reflexivity.
 Qed.
 
 Ltac Zify.zify_post_hook ::= Z.to_euclidean_division_equations.
@@ -225,20 +225,22 @@ Proof.
   { unfold Inv, st1. destruct st; ssimpl. repeat split; try assumption. constructor; [|constructor].
     eapply invc_Fext; [|exact Ic1]. intros a b _. unfold fb_for. f_equal.
     unfold c1, request_client. destruct (req_clip _ _ _ _ _ _) as [[[[? ?] ?] ?]|]; [|reflexivity].
+    destruct (_ || _); [reflexivity|].
     destruct c; csimpl. destruct cUseExt; reflexivity. }
   assert (Hs1 : send_client st1 c1 = Some (c', Some (n, rects))) by (unfold st1; destruct st; exact Hs).
   assert (Hmem : rgn_mem (cM c1) x0 y0 = true /\ rgn_mem (cR c1) x0 y0 = true).
-  { destruct Hok as (Hx & Hy & Hc). unfold c1, request_client.
+  { destruct Hok as (Hx & Hy & Hwn & Hhn). unfold c1, request_client.
     destruct (req_clip (sW st) (sH st) x y w h) as [[[[x' y'] w'] h']|] eqn:E.
     - destruct (req_clip_inside _ _ _ _ _ _ _ _ _ _ Hx Hy E) as (-> & -> & Hxw & Hyh).
-      destruct Hc as [Hw Hh].
-      assert (Ht : WF (rgn_create_rect x y (x + w') (y + h'))) by (apply create_rect_wf; lia).
-      destruct Ic as [Ic _]. pose proof (iWM _ _ _ _ Ic) as HWM. pose proof (iWR _ _ _ _ Ic) as HWR.
       assert (Hin' : rect_mem (x, y, x + w', y + h') x0 y0 = true).
       { unfold req_clip in E. unfold rect_mem, inS in *.
         destruct (w >? sW st - x) eqn:E1; destruct (h >? sH st - y) eqn:E2; cbv zeta in E;
           repeat match type of E with (if ?b then _ else _) = _ => destruct b eqn:? end;
           inversion E; subst; lia. }
+      assert (Hw : 0 < w' /\ 0 < h') by (unfold rect_mem in Hin'; lia). destruct Hw as [Hw Hh].
+      replace ((w' =? 0) || (h' =? 0)) with false by lia.
+      assert (Ht : WF (rgn_create_rect x y (x + w') (y + h'))) by (apply create_rect_wf; lia).
+      destruct Ic as [Ic _]. pose proof (iWM _ _ _ _ Ic) as HWM. pose proof (iWR _ _ _ _ Ic) as HWR.
       destruct c; csimpl. destruct cUseExt; csimpl; msimp; rewrite Hin'; rewrite !orb_true_r; split; reflexivity.
     - exfalso. unfold req_clip in E. unfold rect_mem, inS in *.
       destruct (w >? sW st - x) eqn:E1; destruct (h >? sH st - y) eqn:E2; cbv zeta in E;
@@ -265,7 +267,8 @@ Proof.
   assert (F1 : cM c1 = [] /\ cC c1 = [] /\ cShape c1 = cShape c /\ cCurChanged c1 = cCurChanged c /\
                cCurX c1 = cCurX c /\ cCurY c1 = cCurY c /\ cUseNewFB c1 = cUseNewFB c /\
                cNewFBPending c1 = cNewFBPending c).
-  { unfold c1, request_client. destruct (req_clip _ _ _ _ _ _) as [[[[? ?] ?] ?]|]; destruct c; csimpl; subst; repeat split. }
+  { unfold c1, request_client. destruct (req_clip _ _ _ _ _ _) as [[[[? ?] w1] h1]|]; [destruct ((w1 =? 0) || (h1 =? 0))|];
+      destruct c; csimpl; subst; repeat split. }
   destruct F1 as (G1 & G2 & G3 & G4 & G5 & G6 & G7 & G8).
   assert (Hp1 : pending st c1 = false).
   { unfold pending. rewrite G1, G2, G3, G4, G5, G6, G7, G8. cbn.
